@@ -75,8 +75,11 @@ def make_files(tier, rng, ctx):
     # two frames (> 64 kB uncompressed)
     base = G.rseq(rng, 2600)
     files.append({'name': 'twoframe128', 'k': 41, 'path': build('twoframe128', 41, [[base], [base[:1300] + G.rseq(rng, 1300)]]), 'cli': False})
-    # > 4096 rows, 64-bit, two frames
+    # > 4096 rows, 64-bit, two frames; three sizes so that the 64 KiB frame boundary of the uncompressed stream falls inside
+    # the per-row counts (about 5 700 rows), the base matrix (6 200) and the k-mer list (8 000)
     files.append({'name': 'twoframe64', 'k': 31, 'path': build('twoframe64', 31, [[G.rseq(rng, 6200)]]), 'cli': False})
+    files.append({'name': 'twoframe64b', 'k': 31, 'path': build('twoframe64b', 31, [[G.rseq(rng, 5730)]]), 'cli': False})
+    files.append({'name': 'twoframe64c', 'k': 31, 'path': build('twoframe64c', 31, [[G.rseq(rng, 8030)]]), 'cli': False})
     if tier == 'thorough':
         big = G.rseq(rng, 8000)
         files.append({'name': 'manyframes64', 'k': 31, 'path': build('manyframes64', 31, [[big], [big[:4000] + G.rseq(rng, 4000)], [G.rseq(rng, 4500)]]), 'cli': False})
